@@ -754,6 +754,23 @@ def normal_forms(d, targets, uname, provided):
     return nfs
 
 
+def closed_forms(c, x, targets, uname, provided, depth=0):
+    """The normal form x (times c) as sums of terms.  A product that is nothing but number * (a + b) is a sum of terms (the
+    number is distributed); each of these terms is subject to the rewriting again, to the fixed point."""
+    ms = monomials(from_monos([(c, x)]))
+    if len(ms) == 1 and mono_key(1, ms[0][1]) == mono_key(1, x):
+        return [ms]
+    if depth > 4:
+        raise AnalysisError("reference: sum factors nested too deeply")
+    per = []
+    for c2, d2 in ms:
+        alts = []
+        for y in normal_forms(d2, targets, uname, provided).values():
+            alts.extend(closed_forms(c2, y, targets, uname, provided, depth + 1))
+        per.append(alts)
+    return [[m for part in choice for m in part] for choice in itertools.product(*per)]
+
+
 def tvalue(name, vals, uname):
     if name == "delta":
         return Fraction(1 if vals[0] == vals[1] else 0)
@@ -767,6 +784,7 @@ def value(monos, targets, uname):
     """{assignment of the targets: value}; all other indices of a product are summed over {0..DIM-1}."""
     tg = sorted(targets)
     out = {}
+    monos = distributed(monos)
     for asg in itertools.product(range(DIM), repeat=len(tg)):
         env0 = dict(zip(tg, asg))
         tot = Fraction(0)
@@ -786,6 +804,33 @@ def value(monos, targets, uname):
             tot += c * s
         out[asg] = tot
     return out
+
+
+def distributed(monos):
+    """Every sum factor with a positive exponent multiplied out, so that each product is summed over its own contracted
+    indices only (sum_k (X_i + Y_ik Z_k) = X_i + sum_k Y_ik Z_k)."""
+    out = []
+    for c, d in monos:
+        if not any(is_poly(b) and isinstance(e, int) and e > 0 for b, e in d.items()):
+            out.append((c, d))
+            continue
+        acc = [(Fraction(c), {})]
+        for b, e in d.items():
+            if is_poly(b) and isinstance(e, int) and e > 0:
+                parts = distributed(monomials(b.args[0]))
+                for _ in range(e):
+                    acc = [(c1 * c2, _merge(d1, d2)) for c1, d1 in acc for c2, d2 in parts]
+            else:
+                acc = [(c1, _merge(d1, {b: e})) for c1, d1 in acc]
+        out.extend(acc)
+    return out
+
+
+def _merge(d1, d2):
+    d = dict(d1)
+    for b, e in d2.items():
+        d[b] = d.get(b, 0) + e
+    return {b: (1 if is_delta(b) and e >= 1 else e) for b, e in d.items() if e != 0}
 
 
 def factor_value(b, env, uname):
@@ -860,8 +905,10 @@ def check_scenario(ctx, run, scn, fnnode):
                             f"the scenario says otherwise")
     # (1) reference normal form
     allowed = []
-    for choice in itertools.product(*[[(c, x) for x in nfs.values()] for c, d, nfs in per_term]):
-        allowed.append(monomials(t_add(*[t_mul(_num(c), *[t_pow(b, e) for b, e in x.items()]) for c, x in choice])))
+    provided = scn.akey[3] is not None
+    for choice in itertools.product(*[[ms for x in nfs.values() for ms in closed_forms(c, x, tg, scn.t_name, provided)]
+                                      for c, d, nfs in per_term]):
+        allowed.append(monomials(from_monos([m for ms in choice for m in ms])))
     evd = [e for e in o.effects if isinstance(e, T) and e.op == "evd"]
     if not scn.ed:
         ok = any(expr_key(got) == expr_key(a) for a in allowed)
@@ -952,6 +999,19 @@ SCENARIOS = [
     Scenario("terms-first-only", "R20b", "only the last term simplifies", ["X:ij Y:ij", "5 U:ik U:jk Y:ij"], changed=True),
     Scenario("assumptions", "R20b", "non-default assumptions", "U:ki U:kj X:im Y:jn", target="ijmn", real=True,
              sym_tensors=("X",), antisym_tensors=("Y",), changed=True),
+    # a sum kept as one factor, (a + b)^1: when the pair leaves delta = 1 and nothing but the sum factor behind, the rebuilt
+    # product is a sum of terms - every addend is kept
+    Scenario("sum-factor", "R20b", "squared unitary tensor next to a sum factor only", "U:ij^2 (X:i+Y:i)", target="i", changed=True),
+    Scenario("sum-factor-number", "R20b", "squared unitary tensor next to a number and a sum factor", "2 U:ij^2 (X:i+Y:i)", target="i", changed=True),
+    Scenario("sum-factor-three", "R20b", "squared unitary tensor next to a sum factor of three addends", "-1/2 U:ij^2 (X:i+Y:i+3*Z:i)", target="i", changed=True),
+    Scenario("sum-factor-first", "R20b", "squared unitary tensor (first index contracted) next to a sum factor", "U:ji^2 (X:i+Y:ik*Z:k)", target="i", changed=True),
+    Scenario("sum-factor-scalar", "R20b", "squared unitary tensor next to a sum factor, no target indices", "U:ij^2 (X:i+Y:i)", target="", changed=True),
+    Scenario("sum-factor-tensor", "R20b", "squared unitary tensor next to a sum factor and another tensor", "U:ij^2 (X:i+Y:i) Z:k", target="ik", changed=True),
+    Scenario("sum-factor-square", "R20b", "squared unitary tensor next to a squared sum factor", "3 U:ij^2 (X:i+Y:i)^2", target="i", changed=True),
+    Scenario("sum-factor-pair", "R20b", "pair with a delta next to a sum factor", "U:ki U:kj (X:i+Y:i)", target="ij", changed=True),
+    Scenario("sum-factor-units", "R20b", "squared unitary tensor next to a sum factor whose addends hold unitary pairs", "U:ij^2 (X:i+U:ki*U:kl*Y:l)", target="i", changed=True),
+    Scenario("sum-factor-terms", "R20b", "two terms, one with a sum factor", ["U:ij^2 (X:i+Y:i)", "2 U:ki U:kl Z:l"], target="i", changed=True),
+    Scenario("sum-factor-evd", "R20b", "squared unitary tensor next to a sum factor, delta evaluation requested", "2 U:ij^2 (X:i+Y:i)", target="i", ed=True),
     Scenario("not-expr", "R20b", "a container that is not an Expr", "U:ki U:kj", as_term=True, raises="TypeError"),
     # ---- R20c: bookkeeping
     Scenario("exp-mult", "R20c", "unitary object with exponent 2 next to a partner", "U:ki^2 U:kj", target="ij", changed=False),
@@ -1006,7 +1066,7 @@ def scenarios(ctx, rule):
         except _OutOfDomain as e:
             raise AnalysisError(f"C20 scenario {scn.sid} is outside the decided domain: {e}")
         n += 1
-    ctx.floor(rule, "model expressions evaluated", n, {"R20a": 32, "R20b": 13, "R20c": 30}[rule])
+    ctx.floor(rule, "model expressions evaluated", n, {"R20a": 32, "R20b": 24, "R20c": 30}[rule])
 
 
 def r20c_request(ctx):
